@@ -29,7 +29,7 @@ func init() {
 			"after a failure a second request meets a well-behaved camera. Oracle: success = right URL, correct credentials, stream under the requested path, camera packets reach the requester; failure = 404-style answer, nothing registered, " +
 			"camera connection closed, counters back, no goroutine left, later request dials afresh; concurrent requests end with one registered stream. distinct = event-log hash; non-trivial = a camera fault fired or a pre-emption",
 		Assumptions:    []string{"handshake and play timeouts are those of the code (15 s connect, 45 s read); 'promptly' is checked with a budget of 150 simulated seconds"},
-		RequiredProbes: []string{"c20.success", "c20.failure-clean", "c20.refetch-after-failure", "c20.concurrent-requests", "c20.camera-never-stops", "c20.idle-close-with-live-camera", "c20.cameras-drop-after-race"},
+		RequiredProbes: []string{"c20.success", "c20.failure-clean", "c20.refetch-after-failure", "c20.concurrent-requests", "c20.camera-never-stops", "c20.idle-close-with-live-camera", "c20.cameras-drop-after-race", "c20.second-digest-challenge"},
 	})
 }
 
@@ -56,6 +56,10 @@ func buildC20(tier string) sim.Scenario {
 		plan := camPlan{step: -1, user: tg.user, pw: tg.pw, packets: 150 + tp.Choose(250), gap: time.Duration(20+tp.Choose(40)) * time.Millisecond}
 		if tg.user != "" {
 			plan.auth = []string{"", "basic", "digest", "basic", "digest", "repeated"}[tp.Choose(6)]
+		}
+		if plan.auth == "digest" && tp.OneIn(3) {
+			plan.renonce = 3 + tp.Choose(3) // the camera's nonce expires during the handshake: it challenges a second time
+			w.Probe("c20.second-digest-challenge")
 		}
 		if tp.Choose(3) != 0 {
 			plan.step = tp.Choose(7)
